@@ -446,7 +446,7 @@ func streamObj(thorough bool) {
 	}
 	for _, v := range versions {
 		zero := make([]byte, v.n)
-		v.opObj(zero)
+		v.opObj(zero, true)
 		// exhaustive: every (metric, value) from a few byte patterns, and Get of every metric after it
 		for _, pat := range []byte{0x00, 0xFF, 0xAA, 0x55} {
 			b := make([]byte, v.n)
@@ -471,7 +471,7 @@ func streamObj(thorough bool) {
 		for _, mt := range v.metrics {
 			for _, val := range mt.values {
 				nb := v.opSet(zero, mt.abv, val)
-				v.opObj(nb)
+				v.opObj(nb, true)
 			}
 		}
 		// random histories
@@ -488,23 +488,23 @@ func streamObj(thorough bool) {
 				case 2:
 					v.opGet(b, mt.abv)
 				case 3:
-					v.opObj(b)
+					v.opObj(b, true)
 				default:
 					b = v.opSet(b, mt.abv, pick(mt.values))
 				}
 			}
-			v.opObj(b)
+			v.opObj(b, true)
 		}
 		for i := 0; i < nWF; i++ {
 			b := v.randomWF()
-			v.opObj(b)
+			v.opObj(b, true)
 			mt := pick(v.metrics)
 			v.opSet(b, mt.abv, pick(mt.values))
 		}
 		for i := 0; i < nRaw; i++ {
 			b := make([]byte, v.n)
 			rng.Read(b)
-			v.opObj(b)
+			v.opObj(b, false)
 			mt := pick(v.metrics)
 			v.opSet(b, mt.abv, pick(mt.values))
 			v.opGet(b, mt.abv)
